@@ -2,3 +2,4 @@
 pub mod vars;
 pub mod arith;
 pub mod fnm;
+pub mod optparse;
